@@ -34,7 +34,7 @@ ASSUMPTIONS = [
     "Leaves of the recursive decomposition are closed-form table gates and Adjoint/Pow/Controlled wrappers of them, evaluated "
     "structurally by the reference simulator; PennyLane matrices are never used on the reference side.",
 ]
-BUDGET = {"quick": {"examples": 200}, "thorough": {"examples": 6000, "shards": 16}}
+BUDGET = {"quick": {"examples": 200}, "thorough": {"examples": 2500, "shards": 16}}
 SHRINK_LISTS = ()
 TOL = 1e-7
 
